@@ -549,6 +549,11 @@ def name_spelling(e: bool, sp: int, kind: int) -> bool:
         if kind == 1 and not excl:
             exp = [['child'], ['parent']]
         ok = layers == exp and sorted(fd.payload(0) for fd in own) == ['child'] and bool(is_excl) == excl
+        # exclusivity is a property of the layer and the name: it also stops the walk when a predicate filters every
+        # overload of the exclusive layer out (e.g. a function-only overload looked up as a method)
+        none = [sorted(fd.payload(0) for fd in layer)
+                for layer in child.collect_functions(spelling, lambda fd, ctx: fd.payload(0) == 'parent', use_convention=use_conv)]
+        ok = ok and none == ([] if excl else [['parent']])
     return H.done(ok)
 
 
